@@ -398,12 +398,48 @@ func Main(e *Env, r *Report, f func()) {
 type Progress struct {
 	n   atomic.Int64
 	cur atomic.Pointer[[2]string]
+	mm  []byte // journal file mapped into memory: survives the death of the process
+}
+
+// MapJournal maps the journal file, so that Set can leave the case in
+// progress behind at memory speed; if the worker dies from a fatal runtime
+// error (stack overflow, out of memory) the driver reads the case from it.
+func (p *Progress) MapJournal(path string) {
+	if path == "" {
+		return
+	}
+	f, err := os.OpenFile(path, os.O_RDWR|os.O_CREATE|os.O_TRUNC, 0644)
+	if err != nil {
+		return
+	}
+	defer f.Close()
+	const size = 8192
+	if f.Truncate(size) != nil {
+		return
+	}
+	if m, err := syscall.Mmap(int(f.Fd()), 0, size, syscall.PROT_READ|syscall.PROT_WRITE, syscall.MAP_SHARED); err == nil {
+		p.mm = m
+	}
 }
 
 // Set records the case about to run.
 func (p *Progress) Set(family, input string) {
 	p.cur.Store(&[2]string{family, input})
 	p.n.Add(1)
+	if p.mm != nil {
+		n := copy(p.mm[4:], family)
+		p.mm[4+n] = '\n'
+		m := copy(p.mm[5+n:len(p.mm)-1], input)
+		end := 5 + n + m
+		p.mm[0], p.mm[1], p.mm[2], p.mm[3] = byte(end), byte(end>>8), 'J', 'M' // length first, marker last
+	}
+}
+
+// Done clears the mapped journal (a clean end of the enumeration).
+func (p *Progress) Done() {
+	if p.mm != nil {
+		p.mm[2], p.mm[3] = 0, 0
+	}
 }
 
 // StartWatchdog reports a hang when the heartbeat does not move for limit
